@@ -211,6 +211,72 @@ class PointChargeIntegral(BaseTwoIndexSymmetric):
         exps_b = contractions_two.exps
         coeffs_b = contractions_two.coeffs
 
+        return cls._construct_array_primitives(
+            points_coords,
+            points_charge,
+            coord_a,
+            angmom_a,
+            angmoms_a,
+            exps_a,
+            coeffs_a,
+            coord_b,
+            angmom_b,
+            angmoms_b,
+            exps_b,
+            coeffs_b,
+        )
+
+    # natural logarithm of the largest (ratio of exponents)**(total angular momentum) for which all
+    # primitives of a pair of shells of equal angular momentum are treated in one orientation
+    _max_log_amplification = 30.0
+
+    @classmethod
+    def _construct_array_primitives(
+        cls,
+        points_coords,
+        points_charge,
+        coord_a,
+        angmom_a,
+        angmoms_a,
+        exps_a,
+        coeffs_a,
+        coord_b,
+        angmom_b,
+        angmoms_b,
+        exps_b,
+        coeffs_b,
+    ):
+        """Return the integrals of `construct_array_contraction` for (subsets of) the primitives."""
+        # The recursion is accurate when it is carried out on the tighter of the two shells (see
+        # below). When both shells have tight and diffuse primitives, some pairs of primitives lose
+        # digits in either order. The integrals are linear in the contraction coefficients: treat the
+        # tight and the diffuse primitives of the shell with the wider range of exponents separately
+        # (each part chooses its own order) and add the results.
+        if angmom_a == angmom_b and (angmom_a + angmom_b) * np.log(
+            min(exps_a.max() / exps_b.min(), exps_b.max() / exps_a.min())
+        ) > cls._max_log_amplification:
+            split_a = exps_a.max() / exps_a.min() >= exps_b.max() / exps_b.min()
+            exps = exps_a if split_a else exps_b
+            order = np.argsort(exps)
+            cut = np.argmax(np.diff(np.log(exps[order]))) + 1
+            output = 0.0
+            for keep in (np.sort(order[:cut]), np.sort(order[cut:])):
+                output = output + cls._construct_array_primitives(
+                    points_coords,
+                    points_charge,
+                    coord_a,
+                    angmom_a,
+                    angmoms_a,
+                    exps_a[keep] if split_a else exps_a,
+                    coeffs_a[keep] if split_a else coeffs_a,
+                    coord_b,
+                    angmom_b,
+                    angmoms_b,
+                    exps_b if split_a else exps_b[keep],
+                    coeffs_b if split_a else coeffs_b[keep],
+                )
+            return output
+
         # Enforce L_a >= L_b
         # When both shells have the same angular momentum, the recursion is carried out on the tighter
         # shell: the centre of the product Gaussian is then close to the centre on which the angular
